@@ -76,6 +76,9 @@ class CompiledFunction:
     is_arrow: bool = False  # Arrow function: lexical this, not a constructor
     is_method: bool = False  # method shorthand: not a constructor, has no prototype property
     inferred_name: str = ""  # name an anonymous function takes from `var f = ...`, `f = ...`, `{f: ...}`
+    # a named function expression sees itself under its name, unless a parameter, a var
+    # or a function declaration of its body takes that name
+    binds_own_name: bool = False
 
 
 @dataclass
@@ -1198,8 +1201,15 @@ class Compiler:
         self._in_function = True
 
         # Collect all var declarations to know the full locals set
-        local_vars_set = set(self.locals)
-        self._collect_var_decls(body, local_vars_set)
+        declared_in_body: set = set()
+        self._collect_var_decls(body, declared_in_body)
+        binds_own_name = bool(
+            is_expression
+            and name
+            and name not in declared_in_body
+            and name not in [p.name for p in params]
+        )
+        local_vars_set = set(self.locals) | declared_in_body
         # Update locals list with collected vars
         for var in sorted(local_vars_set):  # slot numbers must not depend on set iteration order
             if var not in self.locals:
@@ -1237,6 +1247,7 @@ class Compiler:
             free_vars=self._free_vars[:],
             cell_vars=self._cell_vars[:],
             source_map=self.source_map,
+            binds_own_name=binds_own_name,
         )
 
         # Pop outer scope if we pushed it
